@@ -2,7 +2,7 @@
    plus non-vacuity examples (concrete runs of the model in which each clause's hypotheses hold). *)
 From Coq Require Import List NArith ZArith Bool Lia.
 From BLB Require Import Gen.Consts Store.Bytes Store.BytesProofs Store.MapProofs Store.Model Store.Proofs Store.WF Store.Conflict Store.Mono
-     Store.Steps Store.Monotone Store.Readd Store.FaultModel Store.Faults Store.Crash Store.CrashProofs Store.CrashInv C09.Model.
+     Store.Steps Store.Monotone Store.Readd Store.FaultModel Store.Faults Store.Crash Store.CrashProofs Store.CrashInv Store.CrashPull C09.Model.
 Import ListNotations.
 
 Lemma reachable_wf_lemma : forall m ops, wf (run (init m) ops).
@@ -402,6 +402,39 @@ Proof.
   intros NP pd t fl fl'. now apply x_visible_monotone.
 Qed.
 
+Lemma faulted_pull_lemma :
+  forall m xs0 f t srcs v orc,
+    let cs := xrun (cinit m) xs0 in
+    (pre_ok cs f t srcs v orc ->
+     forall pd t0,
+       let cs' := fst (x_step cs f (PullTract t srcs v orc)) in
+       (forall fl fl', copy (vs cs) pd t0 = Some fl -> copy (vs cs') pd t0 = Some fl' -> ver_le fl fl') /\
+       (forall g g', durable_copy cs pd t0 = Some g -> durable_copy cs' pd t0 = Some g' -> ver_le g g')) /\
+    (forall r pd fl c,
+        precheck_err cs f t = false ->
+        open_existing (vs cs) t = Op_ok pd fl -> f_ver fl = Some c -> (v < c)%Z ->
+        x_pull_once cs f t r v orc = (d_clear cs pd t, snd (tick (snd (tick f))), E_InvalidState)).
+Proof.
+  intros m xs0 f t srcs v orc cs. pose proof (reachable_cinv m xs0) as I. fold cs in I. split.
+  - intros PO pd t0. now apply faulted_pull_refuses_newer.
+  - intros. eapply faulted_pull_newer_refused; eauto.
+Qed.
+
+Lemma named_events_lemma :
+  forall m xs0 f o pd t,
+    let cs := xrun (cinit m) xs0 in
+    (x_ok cs f o ->
+     let cs' := fst (x_step cs f o) in
+     (forall fl fl', copy (vs cs) pd t = Some fl -> copy (vs cs') pd t = Some fl' -> ver_le fl fl') /\
+     (forall g g', durable_copy cs pd t = Some g -> durable_copy cs' pd t = Some g' -> ver_le g g')) /\
+    durable_copy (power_loss cs) pd t = durable_copy cs pd t /\
+    copy (vs (power_loss cs)) pd t = durable_copy cs pd t.
+Proof.
+  intros m xs0 f o pd t cs. pose proof (reachable_cinv m xs0) as I. fold cs in I.
+  split; [intros OK; now apply versions_only_lowered_by_named_events|].
+  split; [apply durable_power_loss; apply I|apply power_loss_visible; apply I].
+Qed.
+
 (* ---------- non-vacuity: concrete histories in which the clauses' hypotheses hold ---------- *)
 Open Scope N_scope.
 Definition d5 : rle := [(3, 5)].
@@ -548,3 +581,22 @@ Example ex_later_history :
 Proof.
   vm_compute. repeat split; try discriminate; try (repeat constructor; discriminate); eauto.
 Qed.
+
+(* ---------- non-vacuity: faulted pulls ---------- *)
+(* tract 0 at version 2 (h1).  A stale PullTract at version 1:
+   - fault on the 3rd call or none: the pre-check (Open, Close) succeeds -> pre_ok, refused, version stays 2;
+   - fault on the 1st call (the pre-check Open): the named event - the newer copy is replaced, version 1 *)
+Example ex_faulted_pull :
+  let cs := xrun (cinit false) (map (XOp None) h1) in
+  pre_ok cs (Some 2%nat) 0 [(E_OK, d7)] 1%Z 1 /\
+  snd (x_step cs (Some 2%nat) (PullTract 0 [(E_OK, d7)] 1%Z 1)) = RErr E_InvalidState /\
+  cur_ver (vs (fst (x_step cs (Some 2%nat) (PullTract 0 [(E_OK, d7)] 1%Z 1)))) 0 = Some 2%Z /\
+  precheck_err cs (Some 0%nat) 0 = true /\
+  cur_ver (vs (fst (x_step cs (Some 0%nat) (PullTract 0 [(E_OK, d7)] 1%Z 1)))) 0 = Some 1%Z.
+Proof. vm_compute. auto. Qed.
+(* an up-to-date pull with a fault inside the install of the first source: second source installs at 3 *)
+Example ex_faulted_pull_up :
+  let cs := xrun (cinit false) (map (XOp None) h1) in
+  pre_ok cs (Some 4%nat) 0 [(E_OK, d5); (E_OK, d7)] 3%Z 1 /\
+  cur (vs (fst (x_step cs (Some 4%nat) (PullTract 0 [(E_OK, d5); (E_OK, d7)] 3%Z 1)))) 0 = Some (mkfile (Some 3%Z) d7).
+Proof. vm_compute. auto. Qed.
